@@ -59,10 +59,10 @@ VEC_ACTS = {"dv": ["VNew", "VInit", "VDel", "VResize", "VAppend", "VRemoveAt", "
             "uv": ["VNew", "VInit", "VDel", "VResize", "VAppend", "VRemoveAt", "VExtend", "VSet", "VSetOor", "VGet", "VGetOor", "VHas", "VIndexOf", "VFill", "VSort"],
             "iv": ["VNew", "VInit", "VDel", "VAppend", "VRemoveAt", "VExtend", "VSet", "VSetOor", "VGet", "VGetOor", "VHas", "VFill"]}
 GROUP_PREFIX = {"sv": "Sv", "mx": "Mx", "tn": "Tn", "dl": "Dl"}
-MC_QUICK = [("dv", 2, [0, 1, 2], 7, 2), ("uv", 2, [0, 1, 2], 7, 2), ("iv", 2, [0, 1, 2], 7, 2), ("sv", 2, [0, 1, 2], 5, 2),
-            ("dl", 2, [0, 1, 2], 5, 2), ("mx", 2, [0, 1, 2], 4, 4), ("tn", 2, [0, 1], 4, 4)]
-MC_THOROUGH = [("dv", 3, [0, 1, 2], 7, 2), ("uv", 3, [0, 1, 2], 7, 2), ("iv", 3, [0, 1, 2], 7, 2), ("sv", 3, [0, 1, 2], 5, 2),
-               ("dl", 3, [0, 1, 2], 6, 2), ("mx", 2, [0, 1, 2], 5, 8), ("tn", 2, [0, 1, 2], 4, 8)]
+MC_QUICK = [("dv", 3, [0, 1, 2], 6, 2), ("uv", 3, [0, 1, 2], 6, 2), ("iv", 3, [0, 1, 2], 6, 2), ("sv", 2, [0, 1, 2], 6, 2),
+            ("dl", 2, [0, 1, 2], 6, 2), ("mx", 2, [0, 1, 2], 4, 4), ("tn", 2, [0, 1], 4, 4)]
+MC_THOROUGH = [("dv", 4, [0, 1, 2], 8, 3), ("uv", 4, [0, 1, 2], 8, 3), ("iv", 4, [0, 1, 2], 8, 3), ("sv", 3, [0, 1, 2], 6, 3),
+               ("dl", 3, [0, 1, 2], 6, 3), ("mx", 2, [0, 1, 2], 6, 8), ("tn", 2, [0, 1, 2], 5, 8)]
 INVARIANTS = ["Shape", "TypeOK", "DeadIsEmpty", "KindsOff", "DepthBound"]
 LAWS = ["GuardLaw", "FrameLaw", "OorLaw", "CopyLaw", "GrowthLaw", "ShrinkLaw"]
 
